@@ -4,6 +4,8 @@ use super::exec::*;
 use super::mon_access::AccessMonitor;
 use super::mon_flow::{FlowMonitor, FrameMonitor};
 use super::mon_kv::{KvMonitor, Kv};
+use super::mon_ledger::{self, LedgerMonitor};
+use fuel_vm::storage::ContractsAssetsStorage;
 use super::mon_mem::MemMonitor;
 use super::observer::*;
 use super::world::*;
@@ -19,6 +21,27 @@ pub fn run(prop: &str, world: &World, sc: &Scenario, ctx: &mut RunCtx) {
         kv_model.insert(((*k.contract_id()).into(), (*k.state_key()).into()), v.as_ref().to_vec());
     }
     let max_slot = world.params.script_params().max_storage_slot_length();
+    // C27: all (contract, asset) balances known to the world: genesis spec ∪ every written key
+    let balances_of = |st: &super::storage::SimStorage| -> std::collections::BTreeMap<([u8; 32], [u8; 32]), u64> {
+        let mut keys: BTreeSet<([u8; 32], [u8; 32])> = BTreeSet::new();
+        for (ci, c) in sc.contracts.iter().enumerate() {
+            if let Some(id) = world.contract_ids.get(ci) {
+                for (a, _) in &c.balances {
+                    keys.insert(((*id).into(), asset(*a % NA as u8).into()));
+                }
+            }
+        }
+        for ((t, k), _) in st.shadow.iter() {
+            if *t == super::storage::Table::Assets && k.len() == 64 {
+                keys.insert((k[..32].try_into().unwrap(), k[32..].try_into().unwrap()));
+            }
+        }
+        keys.into_iter()
+            .filter_map(|(c, a)| {
+                st.inner.contract_asset_id_balance(&fuel_types::ContractId::new(c), &fuel_types::AssetId::new(a)).ok().flatten().map(|v| ((c, a), v))
+            })
+            .collect()
+    };
     for (i, spec) in sc.txs.iter().enumerate() {
         let ready = match prepare(world, sc.height, sc.gas_price, i, spec) {
             Ok(r) => r,
@@ -38,6 +61,15 @@ pub fn run(prop: &str, world: &World, sc: &Scenario, ctx: &mut RunCtx) {
         let mut mem = MemMonitor::default();
         let mut kv = KvMonitor::new(kv_model.clone(), max_slot);
         kv.evictions = sc.plan.evictions.iter().filter(|e| e.0 as usize == i).map(|e| (e.1, e.2)).collect();
+        let prior_balances = if prop == "C27" { balances_of(vm.as_ref()) } else { Default::default() };
+        let tx_assets: Vec<fuel_types::AssetId> = {
+            let mut v: Vec<_> = spec.coins.iter().map(|c| asset(c.0 % NA as u8)).collect();
+            v.push(fuel_types::AssetId::BASE);
+            v.sort();
+            v.dedup();
+            v
+        };
+        let mut ledger = LedgerMonitor::new(prior_balances.clone(), tx_assets.clone());
 
         let (outcome, violation, known_hits) = {
             let mut obs = Observer::new(ctx.stats);
@@ -51,6 +83,11 @@ pub fn run(prop: &str, world: &World, sc: &Scenario, ctx: &mut RunCtx) {
                 "C25" => obs.monitors.push(&mut flow),
                 "C34" => obs.monitors.push(&mut frames),
                 "C24" => obs.monitors.push(&mut mem),
+                "C27" => {
+                    obs.want_log = true;
+                    obs.monitors.push(&mut ledger);
+                    obs.arm_fault = sc.plan.observer_faults.iter().find(|f| f.0 as usize == i).map(|f| f.1 as u64);
+                }
                 "C33" => {
                     obs.monitors.push(&mut kv);
                     obs.arm_fault = sc.plan.observer_faults.iter().find(|f| f.0 as usize == i).map(|f| f.1 as u64);
@@ -99,6 +136,30 @@ pub fn run(prop: &str, world: &World, sc: &Scenario, ctx: &mut RunCtx) {
             }
             "C24" => {
                 if mem.refused_in_call || mem.callee_heap_write {
+                    ctx.nontrivial = true;
+                }
+            }
+            "C27" => {
+                if vm.as_ref().errors_fired() > 0 {
+                    ctx.stats.inc("fault.storage_io_error");
+                }
+                if !outcome.truncated {
+                    let free_end: std::collections::BTreeMap<[u8; 32], u64> =
+                        tx_assets.iter().filter_map(|a| vm.verif_balances().balance(a).map(|v| ((*a).into(), v))).collect();
+                    // final balances as the embedder leaves them (commit on success, restore otherwise)
+                    let fin = if outcome.is_err || outcome.reverted { prior_balances.clone() } else { balances_of(vm.as_ref()) };
+                    if let Some((inv, sig, detail)) = mon_ledger::check_conservation(world, sc, i, spec, &outcome, &prior_balances, &fin, &free_end) {
+                        if ctx.violate(&inv, &sig, detail) {
+                            return;
+                        }
+                    }
+                    ctx.stats.inc("probe.conservation_checked");
+                }
+                let n_assets = tx_assets.len();
+                if n_assets >= 2 && ledger.nested_contract_transfer && ledger.failure_after_movement {
+                    ctx.stats.inc("probe.strict_c27_nontrivial");
+                }
+                if ledger.movements >= 2 {
                     ctx.nontrivial = true;
                 }
             }
